@@ -829,6 +829,12 @@ func (r *refRun) eval(f *sx, e *env) rval {
 			return rtrue{}
 		}
 		return nil
+	case "vmx":
+		v, ok := r.global.vars[fmt.Sprintf("m%d", needInt(r.args(a, e)[0]))]
+		if !ok {
+			abort("no such mutex")
+		}
+		return v
 	case "vtr":
 		k := needInt(r.args(a, e)[0])
 		r.record(k, "")
